@@ -134,7 +134,7 @@ fn miri_jobs(prop: &str, seed: u64, fam: &str, n: u64, ops: u64) -> Vec<Job> {
         .collect()
 }
 
-const SCHED_RULE: &str = "run r = generator(seed, r): configuration (freelist kind x layout x min segment size x capacity 256..1024 x retries x 2..4 threads x single-threaded prelude building a free list of 0..6 segments with 0..64 bytes of fresh space left) + one generated program per thread (alloc bytes/aligned/typed, borrowed and owned, fill, drop, detach, leak, clone/drop arena, discard_freelist, send/receive owned buffers) executed under the hook-serialised scheduler with a strategy in {random switching p=5/30/70%, PCT d=1..3, window sweep: park thread t at atomic event k of operation j until the others finish or spin}, optional spurious compare_exchange_weak failures; family A = byte allocations only, family B = typed and aligned allocations too, family T = 3..4 threads fighting for the last 16..48 bytes of fresh space (release-on-top keeps giving them back), family F = 2..4 threads on fresh space only, 1..5-byte allocations changing the cursor's residue while others make aligned/typed allocations (lost CAS + retry), family P = 3..4 threads taking and giving back segments of five neighbouring sizes with no fresh space (colliding removals of adjacent nodes, failed unlinks, re-insertions); distinct_nontrivial = distinct hashes of the schedule (sequence of thread choices) of runs with at least one preemption";
+const SCHED_RULE: &str = "run r = generator(seed, r): configuration (freelist kind x layout x min segment size x capacity 256..1024 x retries x 2..4 threads x single-threaded prelude building a free list of 0..6 segments with 0..64 bytes of fresh space left) + one generated program per thread (alloc bytes/aligned/typed, borrowed and owned, fill, drop, detach, leak, clone/drop arena, discard_freelist, send/receive owned buffers) executed under the hook-serialised scheduler with a strategy in {random switching p=5/30/70%, PCT d=1..3, window sweep: park thread t at atomic event k of operation j until the others finish or spin}, optional spurious compare_exchange_weak failures; family A = byte allocations only, family B = typed and aligned allocations too, family T = 3..4 threads fighting for the last 16..48 bytes of fresh space (release-on-top keeps giving them back), family F = 2..4 threads on fresh space only, 1..5-byte allocations changing the cursor's residue while others make aligned/typed allocations (lost CAS + retry), family P = 3..4 threads taking and giving back segments of five neighbouring sizes with no fresh space (colliding removals of adjacent nodes, failed unlinks, re-insertions; one run in four also calls discard_freelist from every thread); distinct_nontrivial = distinct hashes of the schedule (sequence of thread choices) of runs with at least one preemption";
 
 fn seq_rule(prop: &str) -> String {
     let nt = match prop {
@@ -255,8 +255,8 @@ pub fn plan(prop: &str, tier: &str, seed: u64) -> Option<Plan> {
                 "C08" => sv(&["c08_zero_checks_on_dirty_space.recycled", "c08_zero_checks_on_dirty_space.top-released", "c08_zero_checks_on_dirty_space.rewound", "c08_zero_checks.fresh", "c08_zero_checks.fresh-after-reopen", "c08_concurrent_zero_checks_on_recycled_segments", "c08_zero_checks_after_crash_recovery"]),
                 "C10" => sv(&["c10_slow_path_policy_checks", "c10_split_remainders", "c10_whole_segment"]),
                 "C11" => sv(&["c10_slow_path_policy_checks"]),
-                "C13" => sv(&["c13_release_effect_checks", "c13_detach_checks", "c13_value_drop_checks", "c13_backing_checks", "original_arena_dropped_first", "refs_checks"]),
-                "C16" => sv(&["c16_accessor_tables_checked", "c16_first_allocation_checks", "c16_static_cases", "c16_construction_refusals"]),
+                "C13" => sv(&["c13_release_effect_checks", "c13_detach_checks", "c13_value_drop_checks", "c13_zero_sized_value_drop_checks", "c13_backing_checks", "c13_teardowns_of_read_only_sessions", "original_arena_dropped_first", "refs_checks", "spurious_cas_failures_injected"]),
+                "C16" => sv(&["c16_accessor_tables_checked", "c16_first_allocation_checks", "c16_static_cases", "c16_construction_refusals", "c16_reopen_capacity_refusals"]),
                 "C17" => sv(&["c17_rewind_checks", "c17_clear_checks", "c17_fresh_twins_started"]),
                 "C18" => sv(&["c18_truncate_checks", "c18_readonly_truncate_checks", "c18_readonly_truncate_checks_where_the_call_would_be_a_no_op"]),
                 "C20" => sv(&["c20_discard_delta_checks", "c20_discard_freelist_nonempty", "c20_increase_discarded_checks"]),
@@ -457,6 +457,8 @@ pub fn plan(prop: &str, tier: &str, seed: u64) -> Option<Plan> {
                     }
                 }
                 "C07" => {
+                    // single-threaded histories: a call that polls for ever without any other thread (step budget of the E-SEQ hook)
+                    p.jobs.extend(seq_jobs(prop, seed, "rel", 4, if quick { 1500 } else { 100000 }, if quick { 25 } else { 600 }, 0));
                     p.rule.push_str("; monitor M-progress (bounded-progress restatement): a thread that performs K=300 atomic accesses with no successful write by anybody is descheduled in favour of the others; violation = every unfinished thread has performed more than B = (maximum_retries+1) x (capacity/8+2) x 8 accesses since the last successful write in the whole system; also: no node marked as removed may be linked at quiescence; the largest number of accesses without progress seen in calls that did complete is reported next to B");
                     p.required_nonzero = sv(&["preemptions", "events", "freelist.optimistic", "freelist.pessimistic", "window_sweep_runs"]);
                     p.assumptions.push("decides bounded progress under a fair scheduler (spinning threads yield); unbounded liveness and starvation under unfair schedules are not decidable by any finite run".into());
@@ -483,7 +485,7 @@ pub fn plan(prop: &str, tier: &str, seed: u64) -> Option<Plan> {
             p.eval_counter = "c06_crash_points";
             p.min_eval = 500;
             p.min_distinct = 50;
-            p.rule = "history h = generator(seed, h): writable file-backed arena (freelist kind x reserved x min segment size x capacity), prelude that builds a free list with live detached neighbours and 0..100 bytes of fresh space, then 4..10 operations under test (alloc_bytes on fast and slow path, alloc::<T>, alloc_aligned_bytes::<T>(extra), dealloc of a live range: on top / insert / too small, discard_freelist, set_minimum_segment_size, increase_discarded); for each operation EVERY crash point is enumerated: memory() is copied inside the `before` callback of every atomic access of the operation and once after its last event (unsync::Arena: operation boundaries), each image is written to a fresh file, reopened with map_mut (same flavour, every 4th also the other flavour) and put through the recovery oracle: open succeeds, cursor within [data_offset, capacity], every range returned before and not released before the crash holds its pattern, lies below the reopened cursor and intersects no segment of the reopened free list, an allocation storm (byte, typed and aligned requests, some given back) under a step budget of 20000 atomic accesses per call terminates and never returns a range intersecting them (the in-flight range is don't-care); a sample of crash points is replayed by a child process that really abort()s inside the same callback and whose file must equal the snapshot; distinct_nontrivial = distinct (operation kind, event index, access kind, call site) crash-point classes".into();
+            p.rule = "history h = generator(seed, h): writable file-backed arena (freelist kind x reserved x min segment size x capacity), prelude that builds a free list with live detached neighbours and 0..100 bytes of fresh space, then 4..10 operations under test (alloc_bytes on fast and slow path, alloc::<T>, alloc_aligned_bytes::<T>(extra), dealloc of a live range: on top / insert / too small, discard_freelist, set_minimum_segment_size, increase_discarded, clear); for each operation EVERY crash point is enumerated: memory() is copied inside the `before` callback of every atomic access of the operation and once after its last event (unsync::Arena: operation boundaries), each image is written to a fresh file, reopened with map_mut (same flavour, every 4th also the other flavour) and put through the recovery oracle: open succeeds, cursor within [data_offset, capacity], every range returned before and not released before the crash holds its pattern, lies below the reopened cursor and intersects no segment of the reopened free list, an allocation storm (byte, typed and aligned requests, some given back) under a step budget of 20000 atomic accesses per call terminates and never returns a range intersecting them (the in-flight range is don't-care); a sample of crash points is replayed by a child process that really abort()s inside the same callback and whose file must equal the snapshot; distinct_nontrivial = distinct (operation kind, event index, access kind, call site) crash-point classes".into();
             let (count, secs) = if quick { (24, 45) } else { (4000, 1200) };
             for k in 0..12u64 {
                 let mut j = Job::new(&format!("crash-{}", k), &bin("rel"), sv(&["crash", "--seed", &seed.to_string(), "--from", &k.to_string(), "--stride", "12", "--count", &count.to_string(), "--secs", &secs.to_string()]));
